@@ -105,7 +105,7 @@ func c16(r *core.Run) {
 		guardRow(r, "C16/R3", h, "live-name-protected", storeWrites("rns", "Names/value/"), func(*ssa.Function) core.GuardMatch {
 			return anyOf(
 				foundGuard(p, rnsNames, false),
-				eqGuard(p, onlyStoreField(rnsNames, ".Value"), signerOf(p, h), true),
+				eqGuard(p, onlyStoreFieldH(p, h, rnsNames, ".Value"), signerOf(p, h), true),
 				expiredEdge(p),
 			)
 		}, "{Found(Names)=false | Eq(Names.Value,signer)=true | expired}")
